@@ -7,6 +7,18 @@ ALL = ["C%02d" % i for i in range(1, 21)]
 
 # id -> (technique, level text, level note, design section)
 CLAIMED = {
+ "C07": ("property-based testing: channel states reached by real requests x generated close proposals with labelled outputs through both entry points; oracle = acceptance implies a reference predicate (exists output assignment), signature verification against the harness-built closing transaction, closed flag in memory and in a signer restored from the store",
+         "Held-on-N-cases exploration of mutual-close validation.",
+         "Trusted: LDK ClosingTransaction builder, BOLT-3 closing witness weight 222, +2/kw tolerance.",
+         "C07"),
+ "C08": ("property-based testing: on-chain transactions assembled from labelled inputs/outputs/channels incl. arithmetic extremes; oracle = acceptance implies a reference predicate in u128, UnknownDestinations index set equals the labelled set, velocity ledger",
+         "Held-on-N-cases exploration of check_onchain_tx and Approve::handle_proposed_onchain.",
+         "Weight lower bound as documented in check_onchain_tx; explicit approval of unknown outputs outside the oracle.",
+         "C08"),
+ "C18": ("metamorphic property-based testing: same channel id under different creation orders / other channels / setup / restart / lone world must give identical keys, different ids different keys; independent BOLT-3 derivation and compact-store acceptance for secrets",
+         "Held-on-N-cases exploration over seeds, styles (Native, Ldk), networks and id sets.",
+         "Far-away commitment numbers are observed with the test-only counter setter (not a state-machine property).",
+         "C18"),
  "C06": ("stateful property-based testing on one node with 2-3 channels: generated approvals, per-channel content edits pushed to either commitment in any order, preimages, pruning, restarts; oracle = invariant over the ledger of accepted commitment contents (u128 msat)",
          "Held-on-N-histories exploration; the genuine defect found (payments applied at revoke without re-validation) was repaired by a fix: commit and kept as a regression replay.",
          "Approval liveness (existence only) read from the node after pruning; issue-331 tolerated imbalance outside the oracle.",
